@@ -83,7 +83,14 @@ def run (ctx):
     for d in pops:
       c = [c for c in q.node_calls(d) if call_name(c) in ('popleft', 'pop')][0]
       ctx.ob('R-AGREE', trun, "functions are taken from the head (FIFO)", call_name(c) == 'popleft', norm(c), (mod, c), 'D2')
-  calls = [n for n in g.nodes if n.ast is not None and any(isinstance(c.func, ast.Subscript) and norm(c.func.value) == 'e' for c in q.node_calls(n))]
+  # the dequeued function: element 0 of the popped item, or the first name of a tuple-unpacking pop
+  popped = set(); fnames = set()
+  for d in pops:
+    if isinstance(d.ast, ast.Assign) and len(d.ast.targets) == 1:
+      tg = d.ast.targets[0]
+      if isinstance(tg, ast.Name): popped.add(tg.id)
+      elif isinstance(tg, ast.Tuple) and tg.elts and isinstance(tg.elts[0], ast.Name): fnames.add(tg.elts[0].id)
+  calls = [n for n in g.nodes if n.ast is not None and n.kind != 'def' and any((isinstance(c.func, ast.Subscript) and norm(c.func.value) in popped and norm(c.func.slice) == '0') or (isinstance(c.func, ast.Name) and c.func.id in fnames) for c in q.node_calls(n))]
   ctx.floor('call-later invocation site', len(calls), 1)
   for n in calls:
     hs = g.handlers_for(n)
